@@ -303,8 +303,14 @@ ROLE_PREFIX = {
                  {"op": "xchg", "kind": "ae", "from": "b", "to": "c"}, {"op": "hb", "n": "b"}, {"op": "xchg", "kind": "ae", "from": "b", "to": "a"}],
     "precandidate": [{"op": "fire", "n": "a"}],
     "candidate": [{"op": "fire", "n": "a"}, {"op": "xchg", "kind": "rv", "from": "a", "to": "b"}],
+    # pre-candidate whose vote requests are in flight towards a node that is two terms ahead
+    "precandidate_behind": [{"op": "fire", "n": "b"}, {"op": "xchg", "kind": "rv", "from": "b", "to": "c"}, {"op": "adv", "d": 350}, {"op": "fire", "n": "b"},
+                            {"op": "xchg", "kind": "rv", "from": "b", "to": "c", "pre": True}, {"op": "dropall", "kind": "rv", "from": "b"}, {"op": "fire", "n": "a"}],
     "fresh": [],
 }
+
+
+API_TAIL = [{"op": "xchg", "kind": k, "from": "a", "to": t} for k in ("rv", "ae") for t in ("b", "c")]
 
 
 def api_call_stim(call, k):
@@ -348,7 +354,7 @@ def fam_api_all(seed, tier, workdir):
     rng = random.Random(sseed(seed, "api", 0))
     combos = []
     for start, calls in progs:
-        roles = ["leader", "follower", "precandidate", "candidate"] if start.startswith("running") else ["fresh"]
+        roles = ["leader", "follower", "precandidate", "candidate", "precandidate_behind"] if start.startswith("running") else ["fresh"]
         for role in roles:
             combos.append((start, role, calls))
     rng.shuffle(combos)
@@ -365,6 +371,9 @@ def fam_api_all(seed, tier, workdir):
         for k, (call, expect) in enumerate(calls):
             st.append(api_call_stim(call, k))
             st.append({"op": "adv", "d": 20})
+        # requests of the node that are still in flight are answered now - also when the node has
+        # been stopped meanwhile (late responses at a stopped node)
+        st += API_TAIL
         # let whatever the program started make progress before the scenario is healed
         st += [{"op": "controlled", "on": False}, {"op": "auto", "on": True}, {"op": "adv", "d": 700}]
         sc["stimuli"] = st
@@ -396,7 +405,7 @@ def gen_spec_behaviours(cfgname, workdir, num, depth, seed, voters, extra=()):
         if len(h) < 4:
             continue
         scs.append({"name": "sim-%s-%d-%d" % (cfgname, seed, i), "family": "sim", "voters": voters, "extra": list(extra), "controlled": True,
-                    "auto": False, "heal": True, "heal_et": 60, "spec": h})
+                    "auto": False, "heal": True, "heal_et": 60, "spec": h, **({"snap_window": True} if "snapwin" in cfgname else {})})
     shutil.rmtree(os.path.join(d, "md"), ignore_errors=True)
     return scs
 
@@ -491,10 +500,10 @@ RULES = {
 
 PROPS = {
     "C01": dict(fams=[("core", 3), ("crash", 2), ("snap", 2)], corpus=["core", "crash", "snap"], mc="MC_core3", mc_deep="MC_core3_deep", gen=[("Gen_core3", ["a", "b", "c"], 40)]),
-    "C02": dict(fams=[("core", 3), ("crash", 2)], corpus=["core", "crash"], mc="MC_core3", mc_deep="MC_core3_deep", gen=[("Gen_core3", ["a", "b", "c"], 40)]),
+    "C02": dict(fams=[("core", 3), ("crash", 2)], corpus=["core", "crash"], mc="MC_core3", mc_deep="MC_core3_deep", gen=[("Gen_core3", ["a", "b", "c"], 40), ("Gen_async3", ["a", "b", "c"], 45)]),
     "C03": dict(fams=[("core", 3), ("crash", 1), ("snap", 2)], corpus=["core", "snap"], mc="MC_core3", mc_deep="MC_core3_deep", gen=[("Gen_core3", ["a", "b", "c"], 40)]),
     "C04": dict(fams=[("crash", 5)], corpus=["crash"], mc="MC_crash3", mc_deep="MC_crash3_deep"),
-    "C05": dict(fams=[("reads", 5)], corpus=["reads"], mc="MC_reads3", mc_deep="MC_reads3_deep"),
+    "C05": dict(fams=[("reads", 5)], corpus=["reads"], mc="MC_reads3", mc_deep="MC_reads3_deep", gen=[("Gen_async3", ["a", "b", "c"], 45)]),
     "C06": dict(fams=[("core", 3), ("crash", 2)], corpus=["core", "crash"], mc="MC_core3", mc_deep="MC_core3_deep", gen=[("Gen_core3", ["a", "b", "c"], 40)], hae=True),
     "C07": dict(fams=[("core", 3), ("crash", 2)], corpus=["core", "crash"], mc="MC_core3", mc_deep="MC_core3_deep", gen=[("Gen_core3", ["a", "b", "c"], 40)]),
     "C08": dict(fams=[("core", 2), ("crash", 3)], corpus=["core", "crash"], mc="MC_crash3", mc_deep="MC_crash3_deep", hrv=True),
